@@ -3,7 +3,7 @@ import ast
 import itertools
 
 from .common import (ctx, family, returns, calls_in_ctx, reach_from_succ, site, srcs_text, escape_check, resolve_call,
-                     self_attr, const_bool, int_truthiness_uses)
+                     self_attr, const_bool, int_truthiness_uses, full_text)
 from ..flow import callee_attr
 from ..loader import AnalysisError, norm
 
@@ -17,6 +17,14 @@ DOCUMENTED = {'ndn.types.InterestNack', 'ndn.types.InterestTimeout', 'ndn.types.
 
 # ------------------------------------------------------------------------------------------------ satisfy truth table
 class _Unknown(Exception):
+    pass
+
+
+class _InlineExit(Exception):
+    pass
+
+
+class _LoopContinue(Exception):
     pass
 
 
@@ -85,7 +93,14 @@ def satisfy_table(cx, loopvar='entry'):
 
         def run(body):
             for s in body:
-                if isinstance(s, ast.If):
+                if type(s).__name__ == 'InlineBlock':
+                    try:
+                        run(s.body)
+                    except _InlineExit:
+                        pass
+                elif type(s).__name__ == 'InlineExit':
+                    raise _InlineExit()
+                elif isinstance(s, ast.If):
                     run(s.body if val(s.test) else s.orelse)
                 elif isinstance(s, ast.Assign) and len(s.targets) == 1 and isinstance(s.targets[0], ast.Name):
                     t = ast.unparse(s.value)
@@ -106,12 +121,17 @@ def satisfy_table(cx, loopvar='entry'):
                         raise _Unknown(t)
                 elif isinstance(s, (ast.Pass,)):
                     pass
-                elif isinstance(s, (ast.Continue, ast.Break, ast.Return)):
-                    return      # early exits are judged by C03.LOP.1
+                elif isinstance(s, ast.Continue):
+                    raise _LoopContinue()       # this entry is done
+                elif isinstance(s, (ast.Break, ast.Return)):
+                    raise _LoopContinue()       # early exits of the whole loop are judged by C03.LOP.1
                 else:
                     raise _Unknown(ast.unparse(s)[:60])
         try:
-            run(loop.body)
+            try:
+                run(loop.body)
+            except _LoopContinue:
+                pass
         except _Unknown as u:
             raise AnalysisError(f'{cx.qual}: cannot interpret `{u}` in the matching loop')
         out[(A, B, C, D)] = (eff['deliver'], eff['keep'])
@@ -140,6 +160,83 @@ def done_guard_after_await(R, oid, cx):
                    site(cx, c))
         else:
             R.ok(oid, inst, site(cx, c), f'{len(guards)} guard test(s) after the last await')
+
+
+def timeout_table(cx, futp):
+    """which entries survive InterestTreeNode.timeout(future): {(entry.future is future, entry.task set): kept}. Understands a
+    filtering comprehension assigned to self.pending_list and an explicit loop that appends the survivors to a local list."""
+    fn = cx.f.node
+    asg = [s for s in ast.walk(fn) if isinstance(s, ast.Assign) and any(ast.unparse(t) == 'self.pending_list' for t in s.targets)]
+    if len(asg) != 1:
+        raise _Unknown(f'{len(asg)} assignments to self.pending_list')
+    out = {}
+
+    def val(e, ev, F, T):
+        t = ast.unparse(e)
+        if isinstance(e, ast.UnaryOp) and isinstance(e.op, ast.Not):
+            return not val(e.operand, ev, F, T)
+        if isinstance(e, ast.BoolOp):
+            vs = [val(v, ev, F, T) for v in e.values]
+            return all(vs) if isinstance(e.op, ast.And) else any(vs)
+        if isinstance(e, ast.Compare) and len(e.ops) == 1:
+            l, r_ = ast.unparse(e.left), ast.unparse(e.comparators[0])
+            pos = isinstance(e.ops[0], (ast.Is, ast.Eq))
+            if not pos and not isinstance(e.ops[0], (ast.IsNot, ast.NotEq)):
+                raise _Unknown(t)
+            if {l, r_} == {f'{ev}.future', futp}:
+                return F if pos else not F
+            if {l, r_} == {f'{ev}.task', 'None'}:
+                return (not T) if pos else T
+        if t == f'{ev}.task':
+            return T
+        raise _Unknown(t)
+    v = asg[0].value
+    if isinstance(v, ast.ListComp):
+        g = v.generators[0]
+        ev = ast.unparse(g.target)
+        if len(v.generators) != 1 or ast.unparse(g.iter) != 'self.pending_list' or ast.unparse(v.elt) != ev:
+            raise _Unknown(ast.unparse(v))
+        for F in (False, True):
+            for T in (False, True):
+                out[(F, T)] = all(val(c, ev, F, T) for c in g.ifs)
+        return out, None
+    if not isinstance(v, ast.Name):
+        raise _Unknown(ast.unparse(v))
+    lst = v.id
+    loops = [s for s in ast.walk(fn) if isinstance(s, ast.For) and ast.unparse(s.iter) == 'self.pending_list'
+             and any(isinstance(c, ast.Call) and callee_attr(c) == 'append' and ast.unparse(c.func.value) == lst for c in ast.walk(s))]
+    inits = [s for s in ast.walk(fn) if isinstance(s, ast.Assign) and ast.unparse(s.targets[0]) == lst and isinstance(s.value, ast.List) and not s.value.elts]
+    if len(loops) != 1 or len(inits) != 1:
+        raise _Unknown(f'how `{lst}` is built')
+    ev = ast.unparse(loops[0].target)
+    for F in (False, True):
+        for T in (False, True):
+            kept = [0]
+
+            def run(body):
+                for s in body:
+                    if isinstance(s, ast.If):
+                        run(s.body if val(s.test, ev, F, T) else s.orelse)
+                    elif isinstance(s, ast.Expr) and isinstance(s.value, ast.Call):
+                        c = s.value
+                        if callee_attr(c) == 'append' and ast.unparse(c.func.value) == lst and ast.unparse(c.args[0]) == ev:
+                            kept[0] += 1
+                        elif callee_attr(c) in ('cancel', 'debug', 'info', 'warning'):
+                            pass
+                        else:
+                            raise _Unknown(ast.unparse(c))
+                    elif isinstance(s, ast.Continue):
+                        raise _LoopContinue()
+                    elif isinstance(s, ast.Pass):
+                        pass
+                    else:
+                        raise _Unknown(ast.unparse(s)[:60])
+            try:
+                run(loops[0].body)
+            except _LoopContinue:
+                pass
+            out[(F, T)] = kept[0] == 1
+    return out, lst
 
 
 def deadline_rule(R, oid, app):
@@ -532,26 +629,22 @@ def run(R):
         # ------------------------------------------------------------ REL.2
         tm = ctx(R, nodeq + '.timeout')
         futp = tm.f.node.args.args[1].arg
-        asg = [n for n in tm.cfg.nodes if n.kind == 'stmt' and isinstance(n.ast, ast.Assign)
-               and any(ast.unparse(t) == 'self.pending_list' for t in n.ast.targets)]
         inst = f'{nodeq}.timeout :: removes exactly the entries of the given future'
-        good = False
-        if asg and isinstance(asg[0].ast.value, ast.ListComp):
-            lc = asg[0].ast.value
-            g = lc.generators[0]
-            v = ast.unparse(g.target)
-            good = ast.unparse(lc.elt) == v and ast.unparse(g.iter) == 'self.pending_list' and len(g.ifs) == 1 and \
-                ast.unparse(g.ifs[0]) in (f'{v}.future is not {futp}', f'{futp} is not {v}.future', f'not {v}.future is {futp}',
-                                          f'{v}.future != {futp}')
-        if good:
-            R.ok('C03.REL.2', inst, site(tm, asg[0].ast))
+        try:
+            keep, newlist = timeout_table(tm, futp)
+        except _Unknown as u:
+            raise AnalysisError(f'{tm.qual}: cannot interpret `{u}` (filtering of the pending list)')
+        bad = [k for k, v in keep.items() if v != (not k[0])]
+        if not bad:
+            R.ok('C03.REL.2', inst, site(tm, tm.f.node), 'kept <=> entry.future is not the given future (4 valuations)')
         else:
-            R.fail('C03.REL.2', inst, tm.qual, asg[0].ast if asg else 'def timeout', 'timeout() does not keep exactly the entries of the other futures',
-                   site(tm, tm.f.node))
+            F, T = bad[0]
+            R.fail('C03.REL.2', inst, tm.qual, 'def timeout', 'timeout() does not keep exactly the entries of the other futures: an entry whose future '
+                   f'{"is" if F else "is not"} the given one (task {"set" if T else "unset"}) is {"kept" if keep[bad[0]] else "dropped"}', site(tm, tm.f.node))
         rets = returns(tm)
         inst = f'{nodeq}.timeout :: reports emptiness'
-        if rets and all(ast.unparse(r.ast.value) in ('not self.pending_list', 'len(self.pending_list) == 0') for r in rets if r.ast.value is not None) \
-                and all(r.ast.value is not None for r in rets):
+        empties = {'not self.pending_list', 'len(self.pending_list) == 0'} | ({f'not {newlist}', f'len({newlist}) == 0'} if newlist else set())
+        if rets and all(r.ast.value is not None and (ast.unparse(r.ast.value) in empties or full_text(tm, r.ast.value) in empties) for r in rets):
             R.ok('C03.REL.2', inst, site(tm, rets[0].ast))
         else:
             R.fail('C03.REL.2', inst, tm.qual, rets[0].ast if rets else 'def timeout', 'timeout() does not report whether the node became empty',
